@@ -672,8 +672,8 @@ end QueueStats
 namespace PortStatus
 /-- new(PortStatus): pad, HWAddr, Name are nil -/
 def zero : V := .obj "PortStatus" [Header.zero, .num 0, .bytes [], PhyPort.zero]
-/-- NewPortStatus(): header type stays 0, Desc stays the zero PhyPort -/
-def new : V := .obj "PortStatus" [msgOfpHeader 0, .num 0, .bytes (zeros 7), PhyPort.zero]
+/-- NewPortStatus(): header type stays 0, Desc is NewPhyPort() -/
+def new : V := .obj "PortStatus" [msgOfpHeader 0, .num 0, .bytes (zeros 7), PhyPort.new]
 def lenM : V → R (UInt16 × V)
   | .obj "PortStatus" [h, r, pad, d] => do
     let (l, d) ← PhyPort.lenM d
@@ -695,7 +695,7 @@ def unmarshal (recv : V) (data : Slice) : R V :=
     let (h, _) ← msgTryU Header.unmarshal h0 data
     let r ← data.byteAt 8
     let s ← data.fromR 9
-    let dd ← data.fromR (9 + pad.length)
+    let dd ← data.fromR 16                       -- n += 7
     let d ← PhyPort.unmarshal d0 dd
     pure (.obj "PortStatus" [h, V.u8 r, .bytes (copyInto pad s.bytes), d])
   | _ => .panic
@@ -1160,11 +1160,11 @@ def marshalWith (childLen : MsgLenF) (childMar : MsgMarF) (v : V) : R (Bytes × 
 
 /-- `repl = new(T)` by multipart type, decoded from `d`: (record, error returned?) -/
 def decodeRecord (ty : Nat) (d : Slice) : R (V × Bool) :=
-  if ty = Gen.openflow13.MultipartType_Aggregate then msgTryU AggregateStats.unmarshal AggregateStats.zero d
-  else if ty = Gen.openflow13.MultipartType_Desc then msgTryU DescStats.unmarshal DescStats.zero d
-  else if ty = Gen.openflow13.MultipartType_Flow then FlowStats.unmarshalP FlowStats.zero d
-  else if ty = Gen.openflow13.MultipartType_Port then msgTryU PortStats.unmarshal PortStats.zero d
-  else if ty = Gen.openflow13.MultipartType_Table then msgTryU TableStats.unmarshal TableStats.zero d
+  if ty = Gen.openflow13.MultipartType_Aggregate then msgTryU AggregateStats.unmarshal AggregateStats.new d
+  else if ty = Gen.openflow13.MultipartType_Desc then msgTryU DescStats.unmarshal DescStats.new d
+  else if ty = Gen.openflow13.MultipartType_Flow then FlowStats.unmarshalP FlowStats.new d
+  else if ty = Gen.openflow13.MultipartType_Port then msgTryU PortStats.unmarshal PortStats.new d
+  else if ty = Gen.openflow13.MultipartType_Table then msgTryU TableStats.unmarshal TableStats.new d
   else if ty = Gen.openflow13.MultipartType_Queue then msgTryU QueueStats.unmarshal QueueStats.zero d
   else .panic     -- repl stays nil
 
@@ -1255,7 +1255,7 @@ def parseStep (self : Slice → R V) (b : Slice) : R V := do
   else if t = Gen.openflow13.Type_SetConfig then SwitchConfig.unmarshal SwitchConfig.new b
   else if t = Gen.openflow13.Type_PacketIn then PacketIn.unmarshal PacketIn.zero b
   else if t = Gen.openflow13.Type_FlowRemoved then FlowRemoved.unmarshal flowRemovedRecv b
-  else if t = Gen.openflow13.Type_PortStatus then PortStatus.unmarshal PortStatus.zero b
+  else if t = Gen.openflow13.Type_PortStatus then PortStatus.unmarshal PortStatus.new b
   else if t = Gen.openflow13.Type_FlowMod then FlowMod.unmarshal flowModRecv b
   else if t = Gen.openflow13.Type_PacketOut ∨ t = Gen.openflow13.Type_GroupMod ∨ t = Gen.openflow13.Type_PortMod
       ∨ t = Gen.openflow13.Type_TableMod ∨ t = Gen.openflow13.Type_QueueGetConfigRequest
